@@ -72,7 +72,7 @@ package erpc
 //@ ghost global lastWriteOK bool
 //@ trusted (*session).write
 //@   flags libframe
-//@   modifies as(message, type(*socket.message)).size, lockset, waitgroups
+//@   modifies as(message, type(*socket.message)).size, waitgroups
 //@   ghostset ghost.writeAttempts = old(ghost.writeAttempts) + 1
 //@   ghostset ghost.writesOK = old(ghost.writesOK) + (statOK(result.1) ? 1 : 0)
 //@   ghostset ghost.lastWriteOK = statOK(result.1)
@@ -509,15 +509,19 @@ package erpc
 //@   property C09
 //@   flags recover-scope
 //@   requires s.peer != nil && s.peer.pluginContainer != nil && s.socket != nil
+//@   requires[session-lock-not-held-by-caller] !held(addr(s.lock))
 //@   ensures[pre-write-hooks-once] ghost.preWriteCallRuns == old(ghost.preWriteCallRuns) + 1
 //@   loop 1: invariant[hooks-ran-once] ghost.preWriteCallRuns == old(ghost.preWriteCallRuns) + 1
+//@   loop 1: invariant[session-lock-free] !held(addr(s.lock))
 
 //@ func (*session).Push
 //@   property C09
 //@   flags recover-scope
 //@   requires s.peer != nil && s.peer.pluginContainer != nil && s.socket != nil
+//@   requires[session-lock-not-held-by-caller] !held(addr(s.lock))
 //@   ensures[pre-write-hooks-once] ghost.preWritePushRuns == old(ghost.preWritePushRuns) + 1
 //@   loop 1: invariant[hooks-ran-once] ghost.preWritePushRuns == old(ghost.preWritePushRuns) + 1
+//@   loop 1: invariant[session-lock-free] !held(addr(s.lock))
 
 // ---- C10: routes dispatch to exactly their handler ------------------------------
 //@ func (*SubRouter).getCall
@@ -619,6 +623,7 @@ package erpc
 //@   flags locks libframe frame-unchecked
 //@   modifies allof(type(session)), allof(type(socket.socket)), lockset, waitgroups, ghost.redialRuns, ghost.dialAttempts, ghost.lastHookOK
 //@   requires !held(addr(s.lock))
+//@   ensures[lock-released] !held(addr(s.lock))
 //@   ensures[no-redial-config] old(s.redialForClientLocked) == nil ==> !result && ghost.redialRuns == old(ghost.redialRuns)
 //@   ensures[at-most-one-round] ghost.redialRuns <= old(ghost.redialRuns) + 1
 
